@@ -297,7 +297,18 @@ func (dm *DMap) checkPutConditions(e *env) error {
 	return nil
 }
 
+// maxKeyLength is the maximum length of a key. The encoded form of an entry,
+// which is what the replicas receive and store verbatim, keeps the key length
+// in a single byte.
+const maxKeyLength = 256
+
 func (dm *DMap) putOnCluster(e *env) error {
+	if len(e.key) >= maxKeyLength {
+		// Reject the key before anything is replicated. The storage engine would
+		// only notice it on the primary copy, after the backups have been written.
+		return ErrKeyTooLarge
+	}
+
 	part := dm.getPartitionByHKey(e.hkey, partitions.PRIMARY)
 	f, err := dm.loadOrCreateFragment(part)
 	if err != nil {
